@@ -118,3 +118,33 @@ pub fn generate_with_crash(spec_path: &Path, cfg: &Cfg, dest: &Path, plan: &str)
     use std::os::unix::process::ExitStatusExt;
     if let Some(sig) = out.signal() { format!("signal {sig}") } else { format!("exit {}", out.code().unwrap_or(-1)) }
 }
+
+/// Runs one generation in a child process (so that a stack overflow, abort or hang of the generator is an
+/// observation and not the end of the harness). Returns `Ok(())` when the child exits 0 or with an ordinary
+/// error / caught panic (those are reproduced in-process afterwards), `Err(status)` for a signal or timeout.
+pub fn generation_survives(doc_json: &str, cfg: &Cfg, secs: u64) -> Result<(), String> {
+    let dir = fresh_dir("child");
+    let spec = dir.join("spec.json");
+    std::fs::write(&spec, doc_json).map_err(|e| e.to_string())?;
+    let exe = std::env::current_exe().unwrap();
+    let mut child = std::process::Command::new(exe)
+        .arg("child-gen").arg(&spec).arg(dir.join("out")).arg(&cfg.name).arg(cfg.examples.to_string()).arg(cfg.derives.join("\u{1f}"))
+        .stdout(std::process::Stdio::null()).stderr(std::process::Stdio::null()).spawn().map_err(|e| e.to_string())?;
+    let t0 = std::time::Instant::now();
+    let status = loop {
+        match child.try_wait() {
+            Ok(Some(st)) => break Some(st),
+            Ok(None) => {
+                if t0.elapsed().as_secs() >= secs { let _ = child.kill(); let _ = child.wait(); break None; }
+                std::thread::sleep(std::time::Duration::from_millis(5));
+            }
+            Err(e) => { let _ = std::fs::remove_dir_all(&dir); return Err(e.to_string()); }
+        }
+    };
+    let _ = std::fs::remove_dir_all(&dir);
+    use std::os::unix::process::ExitStatusExt;
+    match status {
+        None => Err(format!("timeout after {secs}s")),
+        Some(st) => match st.signal() { Some(sig) => Err(format!("killed by signal {sig} (stack overflow / abort)")), None => Ok(()) },
+    }
+}
